@@ -327,6 +327,43 @@ Example c05_float32_double_rounding_witness :
   json_yaml_float_agree (Some 4607182419068452864%N) (Some 4607182419068452864%N) (Some 4607182419068452864%N) = true.
 Proof. vm_compute. split; reflexivity. Qed.
 
+(* READER entry points: UnmarshalJsonReader / UnmarshalYamlReader do the bytes variant's work on everything the reader
+   delivers -- same verdict, same value, however the content is chunked; an empty or already drained reader is the
+   bytes variant on the empty document.  (The tokenisers are a parameter; on the Go code this is Exec.spec_ok's
+   c_readers clause on every case.) *)
+Theorem c05_reader_bytes_agree : forall decode n t,
+  (forall chunks, unmarshal_reader decode n t chunks = unmarshal_bytes decode n t (fold_right append EmptyString chunks)) /\
+  unmarshal_reader decode n t [] = unmarshal_bytes decode n t EmptyString /\
+  (forall c1 c2, fold_right append EmptyString c1 = fold_right append EmptyString c2 ->
+                 unmarshal_reader decode n t c1 = unmarshal_reader decode n t c2).
+Proof. intros. split; [reflexivity|]. split; [reflexivity|]. apply reader_chunking. Qed.
+Print Assumptions c05_reader_bytes_agree.
+
+(* FORM values are exact: the first value of a key reaches the unmarshaller unchanged unless it is EMPTY -- a blank,
+   a tab, a newline, leading/trailing spaces are data and make the member present (no default, not "missing") --
+   and a string member read from it (form/path/header mode = from_string) is exactly that text *)
+Theorem c05_form_value_exact :
+  (forall k s pj rest ps, s <> EmptyString ->
+     exists m, form_doc ((k, JStr s pj :: rest) :: ps) = JObj m /\ olookup k m = Some (JStr s pj)) /\
+  (forall t o s pj w, deref t = Prim KStr -> from_string t o (JStr s pj) = Ok w -> w = wrap_ptr t (VStr s)).
+Proof. split; [exact form_doc_present | exact from_string_str_exact]. Qed.
+Print Assumptions c05_form_value_exact.
+
+(* HEADER maps built programmatically -- a key with no value (nil or empty list), one value, several values -- and
+   every form: parsing never panics *)
+Theorem c05_parse_total : forall n t, wf_ty t = true ->
+  (forall p, unmarshal n t (header_doc p) <> Panic) /\ (forall p, unmarshal n t (form_doc p) <> Panic).
+Proof. intros n t W. split; intro p; apply never_panics; exact W. Qed.
+Print Assumptions c05_parse_total.
+
+Example c05_form_blank_example :
+  let t := Struct [mkfield "q" (mkopts false (Some "dflt") [] None true None) false (Prim KStr)]%string in
+  unmarshal 4 t (form_doc [("q", [JStr " " None])]%string) = Ok (VStruct [VStr " "]) /\
+  unmarshal 4 t (form_doc [("q", [JStr "" None])]%string) = Ok (VStruct [VStr "dflt"]) /\
+  unmarshal 4 (Struct [mkfield "X-A" (mkopts true None [] None false None) false (Slice (Prim KStr))]%string)
+            (header_doc [("X-A", Some [])]%string) = Ok (VStruct [VSlice []]).
+Proof. vm_compute. repeat split. Qed.
+
 (* ---------------- non-vacuity *)
 Example c05_keys_example :
   to_camel_case "user_name" = "userName"%string /\ to_camel_case "UserName" = "userName"%string /\
